@@ -22,6 +22,7 @@ from .resolver_map import ResolverMap
 from .scalars import SPECIFIED_SCALAR_TYPES
 from .types import (
     Directive,
+    EnumType,
     GraphQLAbstractType,
     GraphQLType,
     InputObjectType,
@@ -30,6 +31,7 @@ from .types import (
     NamedType,
     NonNullType,
     ObjectType,
+    ScalarType,
     UnionType,
     unwrap_type,
 )
@@ -178,7 +180,7 @@ class Schema(ResolverMap):
                 if new_type is None:
                     del self.types[type_name]
                 else:
-                    if type(original_type) != type(new_type):
+                    if _type_kind(original_type) != _type_kind(new_type):
                         raise SchemaError(
                             "Cannot replace type %r with a different kind of type %r."
                             % (original_type, new_type)
@@ -571,6 +573,24 @@ class Schema(ResolverMap):
         cloned.merge_resolvers(self)
 
         return cloned
+
+
+_TYPE_KINDS = (
+    ScalarType,
+    ObjectType,
+    InterfaceType,
+    UnionType,
+    EnumType,
+    InputObjectType,
+)
+
+
+# Subclasses (e.g. RegexType) are of the kind of their base class.
+def _type_kind(type_: NamedType) -> type:
+    for kind in _TYPE_KINDS:
+        if isinstance(type_, kind):
+            return kind
+    return type(type_)
 
 
 # Members (fields, arguments, input fields) hold a reference to their type which
